@@ -158,7 +158,55 @@ func Run(r *common.Run) error {
 		r.Mark("case rcpt-corpus %d", n)
 		runRcpt(r, parseIDs(c.ids), strings.Split(c.sched, ","), "rcpt-corpus")
 	}
-	nS := r.Pick(2500, 40000)
+	// schedules generated from the Lean LTS by the driver
+	nGen := 0
+	if bin := findDriver(r.Dir); bin != "" {
+		configs := r.Pick(40, 400)
+		per := r.Pick(30, 60)
+		for n := 0; n < configs && len(r.Failures) < 60 && r.Hist["problem"] < 25; n++ {
+			reqs := randReqs(r.Rnd)
+			if len(reqs) > 2 {
+				reqs = reqs[:2]
+			}
+			ans, err := askDriver(bin, fmt.Sprintf("C06 gen %s %d %d %d", reqField(reqs), r.Rnd.Intn(1<<30), per, 10+r.Rnd.Intn(20)))
+			if err != nil {
+				r.Notes = append(r.Notes, "schedule generation failed: "+err.Error())
+				break
+			}
+			for _, sc := range strings.Split(ans, ";") {
+				if sc == "" || sc == "-" {
+					continue
+				}
+				r.Mark("case sess-model %d", nGen)
+				nGen++
+				runSessScript(r, reqs, strings.Split(sc, ","), "sess-model")
+			}
+		}
+		if !r.Quick() {
+			// every path of the LTS up to a bound, one and two requesters
+			for _, cfg := range []struct {
+				reqs  string
+				depth int
+			}{{"i:0:e:r", 9}, {"m:0:c:e", 8}, {"i:0:e:r,i:1:c:e", 6}, {"i:0:c:r,m:0:e:e", 6}} {
+				ans, err := askDriver(bin, fmt.Sprintf("C06 genall %s %d %d", cfg.reqs, cfg.depth, 15000))
+				if err != nil {
+					break
+				}
+				for _, sc := range strings.Split(ans, ";") {
+					if sc == "" || sc == "-" || len(r.Failures) >= 60 || r.Hist["problem"] >= 25 {
+						continue
+					}
+					r.Mark("case sess-model-all %d", nGen)
+					nGen++
+					runSessScript(r, parseReqs(cfg.reqs), strings.Split(sc, ","), "sess-model-exhaustive")
+				}
+			}
+			r.Exhaustive = append(r.Exhaustive, "every path of the session LTS with <= 9 (one requester) / 6 (two requesters) harness actions over the generated peer alphabet (capped at 15000 per configuration)")
+		}
+	} else {
+		r.Notes = append(r.Notes, "xdriver not found: no model-generated schedules in this run")
+	}
+	nS := r.Pick(600, 8000)
 	for n := 0; n < nS && len(r.Failures) < 60 && r.Hist["problem"] < 25; n++ {
 		r.Mark("case sess-random %d", n)
 		reqs := randReqs(r.Rnd)
@@ -170,7 +218,7 @@ func Run(r *common.Run) error {
 		ids := randIDs(r.Rnd)
 		runRcpt(r, ids, randRcptSched(r.Rnd, len(ids), 8+r.Rnd.Intn(24)), "rcpt-random")
 	}
-	r.Notes = append(r.Notes, fmt.Sprintf("forced schedules: %d session corpus + %d random, %d receipts corpus + %d random", len(sessCorpus), nS, len(rcptCorpus), nR))
+	r.Notes = append(r.Notes, fmt.Sprintf("forced schedules: %d session corpus + %d generated from the Lean LTS + %d harness-random, %d receipts corpus + %d random", len(sessCorpus), nGen, nS, len(rcptCorpus), nR))
 	return nil
 }
 
